@@ -572,3 +572,121 @@ T("C01", "twin-needle-table-by-key", B, _FIND_DEF, "_NEEDLES = {}\n\n\n" + _FIND
 ])
 # the outcome remembered on the view instance that the call itself creates
 T("C01", "twin-view-instance-cache", X, "        self.nonced_filesize = self.fh.read(4)\n", "        self.nonced_filesize = self.fh.read(4)\n        self._sizes = {}\n        self._sizes[nonce_offset] = self.nonced_filesize\n")
+
+# ================================================================================================ R2: the Setting header under restyled C definitions
+_STYPE = "enum SettingsType: uint16 {\n    TYPE_NONE = 0,\n    TYPE_SHORT = 1,\n    TYPE_INT = 2,\n    TYPE_PTR = 3,\n};\n"
+_SLEN = "    uint16 length;          // uint16\n"
+# implicit consecutive enumerator values, predefined typedef names of dissect.cstruct for the same 16-bit unsigned type
+T("C01", "twin-cdef-implicit-enum-unsigned-short", B, _STYPE, "enum SettingsType: unsigned short {\n    TYPE_NONE,\n    TYPE_SHORT,\n    TYPE_INT,\n    TYPE_PTR,\n};\n")
+T("C01", "twin-cdef-length-word-alias", B, _SLEN, "    __u16 length;\n")
+T("C01", "twin-cdef-enum-partly-implicit", B, _STYPE, "enum SettingsType: uint16_t {\n    TYPE_NONE = 0,\n    TYPE_SHORT,\n    TYPE_INT,\n    TYPE_PTR = 3,\n};\n")
+# the same restyling with a slip: the needle constant no longer is the serialised header
+M("C01", "cdef-implicit-enum-reordered", B, _STYPE, "enum SettingsType: uint16_t {\n    TYPE_NONE,\n    TYPE_INT,\n    TYPE_SHORT,\n    TYPE_PTR,\n};\n", "C01.R2")
+M("C01", "cdef-length-alias-widened", B, _SLEN, "    uint32_t length;\n", "C01.R2")
+# a type name that neither csverif.cdefs nor the typedef table knows: nothing is claimed
+T("C01", "twin-cdef-length-unknown-typedef", B, _SLEN, "    setting_len_t length;\n")
+
+# ================================================================================================ R13: the key-ordering statistic is counted from the start
+_REWIND = "        fxor.seek(0)\n        bytes_counter = collections.Counter()\n"
+_NOREWIND = "        bytes_counter = collections.Counter()\n"
+_RETRY_VIEW = "                fxor = XorEncodedFile.from_file(fobj)\n            except ValueError:\n                fxor = fobj\n"
+_COUNT_LOOP = (
+    "        for chunk in iter(functools.partial(fxor.read, io.DEFAULT_BUFFER_SIZE), b\"\"):\n"
+    "            fourgrams = grouper(chunk, n=4, fillvalue=0)\n"
+    "            bytes_counter.update(gram[0] for gram in fourgrams if gram[0] == gram[1] == gram[2] == gram[3])\n"
+)
+# the repaired defect F26 put back: counting starts wherever the failed XorEncoded detection / the raw search left the handle
+M("C01", "frequency-count-not-rewound", B, _REWIND, _NOREWIND, "C01.R13")
+# rewound only when the XorEncoded view could be built; the raw-file fallback is counted from where phase 2 stopped
+M("C01", "frequency-count-rewound-in-one-branch", B, _REWIND, "", "C01.R13", edits=[
+    (B, _REWIND, _NOREWIND),
+    (B, _RETRY_VIEW, "                fxor = XorEncodedFile.from_file(fobj)\n                fxor.seek(0)\n            except ValueError:\n                fxor = fobj\n"),
+])
+# a seek that does not rewind
+M("C01", "frequency-count-relative-seek", B, _REWIND, "        fxor.seek(0, io.SEEK_CUR)\n" + _NOREWIND, "C01.R13")
+# the handle is used again between the rewind and the counting loop
+M("C01", "frequency-count-peek-after-rewind", B, _REWIND, "        fxor.seek(0)\n        magic = fxor.read(2)\n        logger.debug(f\"magic: {magic!r}\")\n" + _NOREWIND, "C01.R13")
+# rewinds spelled differently / placed differently
+T("C01", "twin-frequency-count-seek-set", B, _REWIND, "        fxor.seek(0, io.SEEK_SET)\n" + _NOREWIND)
+T("C01", "twin-frequency-count-rewound-in-both-branches", B, _REWIND, "", edits=[
+    (B, _REWIND, _NOREWIND),
+    (B, _RETRY_VIEW, "                fxor = XorEncodedFile.from_file(fobj)\n                fxor.seek(0)\n            except ValueError:\n                fxor = fobj\n                fobj.seek(0)\n"),
+])
+# the view comes back rewound from its constructor; only the raw-file fallback needs the explicit rewind
+T("C01", "twin-frequency-count-fresh-view", B, _REWIND, "", edits=[
+    (B, _REWIND, _NOREWIND),
+    (B, _RETRY_VIEW, "                fxor = XorEncodedFile.from_file(fobj)\n            except ValueError:\n                fobj.seek(0)\n                fxor = fobj\n"),
+])
+# counting loop as while/read/break
+T("C01", "twin-frequency-count-while-loop", B, _COUNT_LOOP,
+  "        while True:\n"
+  "            chunk = fxor.read(io.DEFAULT_BUFFER_SIZE)\n"
+  "            if not chunk:\n"
+  "                break\n"
+  "            fourgrams = grouper(chunk, n=4, fillvalue=0)\n"
+  "            bytes_counter.update(gram[0] for gram in fourgrams if gram[0] == gram[1] == gram[2] == gram[3])\n")
+M("C01", "frequency-count-while-loop-not-rewound", B, _COUNT_LOOP, "", "C01.R13", edits=[
+    (B, _REWIND, _NOREWIND),
+    (B, _COUNT_LOOP,
+     "        while True:\n"
+     "            chunk = fxor.read(io.DEFAULT_BUFFER_SIZE)\n"
+     "            if not chunk:\n"
+     "                break\n"
+     "            fourgrams = grouper(chunk, n=4, fillvalue=0)\n"
+     "            bytes_counter.update(gram[0] for gram in fourgrams if gram[0] == gram[1] == gram[2] == gram[3])\n"),
+])
+
+# ================================================================================================ R14: the retry tries every left-over key
+# the frequency order turned into a selection (other spellings than the seeded one), or the list cut short
+M("C01", "retry-keys-filtered-by-statistic", B, _SORT, _SORT + "        left_xor_keys = [k for k in left_xor_keys if k in most_common_bytes]\n", "C01.R14")
+M("C01", "retry-keys-filter-builtin", B, _SORT, _SORT + "        left_xor_keys = list(filter(lambda k: k in most_common_bytes, left_xor_keys))\n", "C01.R14")
+M("C01", "retry-keys-truncated", B, _SORT, _SORT + "        left_xor_keys = left_xor_keys[:32]\n", "C01.R14")
+# order-only rewrites: seen bytes first, then the rest (partition); identity copy; reversed twice
+T("C01", "twin-retry-keys-partitioned", B, _SORT,
+  "        left_xor_keys = [k for k in most_common_bytes if k in left_xor_keys] + [k for k in left_xor_keys if k not in most_common_bytes]\n")
+T("C01", "twin-retry-keys-identity-copy", B, _SORT, _SORT + "        left_xor_keys = [k for k in left_xor_keys]\n")
+T("C01", "twin-retry-keys-full-slice", B, _SORT, _SORT + "        left_xor_keys = left_xor_keys[:]\n")
+
+# ================================================================================================ R15: the scanner reports the hits of one read in file order
+U = "utils.py"
+_SCAN_ROUND = (
+    "        d = saved + block\n"
+    "        p = -1\n"
+    "        while True:\n"
+    "            p = d.find(needle, p + 1)\n"
+    "            if p == -1 or max_offset and p > max_offset:\n"
+    "                break\n"
+    "            offset = pos + p - len(saved)\n"
+    "            yield offset\n"
+    "        saved = d[-overlap_len:] if overlap_len else b\"\"\n"
+)
+_SEAM = (
+    "        if carried:\n"
+    "            seam = saved + block[:overlap_len]\n"
+    "            q = -1\n"
+    "            while True:\n"
+    "                q = seam.find(needle, q + 1)\n"
+    "                if q == -1 or {guard} or max_offset and q > max_offset:\n"
+    "                    break\n"
+    "                yield {seam_offset}\n"
+)
+_BLOCK = (
+    "        p = -1\n"
+    "        while True:\n"
+    "            p = block.find(needle, p + 1)\n"
+    "            if p == -1 or max_offset and carried + p > max_offset:\n"
+    "                break\n"
+    "            yield pos + p\n"
+)
+_NEW_SAVED = "        saved = (saved + block[-overlap_len:])[-overlap_len:] if overlap_len else b\"\"\n"
+# the seam with the previous read searched separately from the new block: hits that straddle the boundary come first ...
+T("C01", "twin-scan-seam-then-block", U, _SCAN_ROUND,
+  "        carried = len(saved)\n" + _SEAM.format(guard="q >= carried", seam_offset="pos + q - carried") + _BLOCK + _NEW_SAVED)
+# ... not after the hits of the block behind them (other spelling than the seeded change: mirrored guard, other term order)
+M("C01", "scan-block-then-seam", U, _SCAN_ROUND,
+  "        carried = len(saved)\n" + _BLOCK + _SEAM.format(guard="carried <= q", seam_offset="pos - len(saved) + q") + _NEW_SAVED, "C01.R15")
+# one buffer, searched from its end
+M("C01", "scan-round-backwards", U, _SCAN_ROUND, _SCAN_ROUND.replace("        p = -1\n", "        p = len(d) + 1\n").replace(
+    "            p = d.find(needle, p + 1)\n", "            p = d.rfind(needle, 0, p + needle_len - 1)\n"), "C01.R15")
+# the search start spelled differently
+T("C01", "twin-scan-start-mirrored", U, "            p = d.find(needle, p + 1)\n", "            p = d.find(needle, 1 + p)\n")
